@@ -51,11 +51,12 @@ Definition scope_try (lim cnt : Z -> Z) (p : Z) : option (Z -> Z) :=
 
 Definition scope_release (cnt : Z -> Z) (p : Z) : Z -> Z := upd cnt p (cnt p - 1).
 
-Record cfg := mkCfg { limD : Z -> Z; limL : Z -> Z }.
+(* c_limited: the one connection between the two hosts is a limited (relayed) one *)
+Record cfg := mkCfg { limD : Z -> Z; limL : Z -> Z; c_limited : bool }.
 
 (* what one open (NewStream + first use) shows:
    o_res   0 ok | 1 negotiation failed | 2 dialer's scope refused | 3 no protocols |
-           4 reset by the listener during negotiation
+           4 reset by the listener during negotiation | 5 limited connection not allowed
    o_dp    Protocol() of the dialer's stream (-1: no stream)
    o_use   1 echo received | 0 first use failed | -1 no stream
    o_h, o_lp   registration index and Protocol() reported by the handler in the echo
@@ -77,6 +78,11 @@ Record bst := mkB {
   b_held : list (Z * Z);     (* streams both ends hold: slot, protocol *)
   b_nslot : Z }.
 
+(* one NewStream call of a batch: the ordered request list, whether the context
+   allows a limited connection, and the two parameters of the schedule that
+   are not under the caller's control (see open1) *)
+Record oreq := mkReq { q_reqs : list Z; q_extra : list Z; q_race : bool; q_allow : bool }.
+
 Section MS.
   (* go-multistream, dialer side against the listener's muxer; [sup] = "the
      listener's muxer has a handler accepting this ID".
@@ -91,10 +97,14 @@ Section MS.
      when preferredProtocol reads it; [extra]: protocols added by concurrent
      opens of the same batch before that read (only IDs the listener
      supports can have been added); [race]: the listener's reset overtakes its
-     acknowledgement (only matters when the listener's scope refuses). *)
+     acknowledgement (only matters when the listener's scope refuses);
+     [allow]: the context allows a limited connection. *)
   Definition open1 (c : cfg) (t : table) (kn : list Z) (b : bst)
-             (reqs extra : list Z) (race : bool) : bst * ores :=
+             (reqs extra : list Z) (race allow : bool) : bst * ores :=
     let sup := supports t in
+    (* Swarm.NewStream / Conn.NewStream: a limited connection carries a new
+       stream only for a context made with network.WithAllowLimitedConn *)
+    if c_limited c && negb allow then (b, fail_res 5) else
     match find (fun r => memz r kn || memz r (filter sup extra)) reqs with
     | Some p =>
         (* optimistic: SetProtocol(pref), lazy select *)
@@ -149,11 +159,11 @@ Section MS.
     end.
 
   Fixpoint run_batch (c : cfg) (t : table) (kn : list Z) (b : bst)
-           (opens : list (list Z * list Z * bool)) : bst * list ores :=
+           (opens : list oreq) : bst * list ores :=
     match opens with
     | [] => (b, [])
-    | (reqs, extra, race) :: r =>
-        let '(b1, o) := open1 c t kn b reqs extra race in
+    | q :: r =>
+        let '(b1, o) := open1 c t kn b (q_reqs q) (q_extra q) (q_race q) (q_allow q) in
         let '(b2, os) := run_batch c t kn b1 r in
         (b2, o :: os)
     end.
@@ -180,7 +190,7 @@ Inductive op :=
 | OAddMatch (name : Z) (acc : list Z)               (* SetStreamHandlerMatch *)
 | ORemove (name : Z)                                (* RemoveStreamHandler *)
 | OKnow (k : list Z)                                (* peerstore SetProtocols(listener, k) *)
-| OBatch (opens : list (list Z * list Z * bool))    (* concurrent NewStream + first use; 1 = sequential *)
+| OBatch (opens : list oreq)                        (* concurrent NewStream + first use; 1 = sequential *)
 | OClose (slot how : Z).                            (* both ends close (0) / reset (1) a held stream *)
 
 Inductive obs :=
